@@ -504,9 +504,14 @@ func (in *Interp) reportViolation(kind, msg, site string) {
 	inputs, ufs, _, ok := in.model()
 	v := &Violation{Harness: in.harness, Msg: msg, Site: site, Kind: kind, Decision: append([]Decision(nil), in.dec...), Stack: in.stackTrace()}
 	for _, d := range in.dec {
-		if d.Kind == "sc" || d.Kind == "sl" {
+		if d.Kind == "sc" || d.Kind == "sl" || d.Kind == "mo" {
 			v.Scheduled = true
 		}
+	}
+	if len(in.gs) > 1 {
+		// several goroutines were live: the outcome may depend on the (legal) order in which the
+		// engine ran them, which a native run cannot be forced to repeat
+		v.Scheduled = true
 	}
 	if ok {
 		v.Inputs = inputs
@@ -528,7 +533,7 @@ func (in *Interp) pathWitness() *CoverWitness {
 	}
 	w := &CoverWitness{Inputs: inputs, UFTable: ufs}
 	for _, d := range in.dec {
-		if d.Kind == "sc" || d.Kind == "sl" {
+		if d.Kind == "sc" || d.Kind == "sl" || d.Kind == "mo" {
 			w.Scheduled = true
 		}
 	}
@@ -557,7 +562,7 @@ func (e *Engine) ReplayConcrete(h *HarnessSpec, v *Violation, lim Limits) bool {
 	defer solver.Close()
 	var prefix []Decision
 	for _, d := range v.Decision {
-		if d.Kind == "ch" || d.Kind == "sc" || d.Kind == "sl" {
+		if d.Kind == "ch" || d.Kind == "sc" || d.Kind == "sl" || d.Kind == "mo" {
 			prefix = append(prefix, d)
 		}
 	}
